@@ -70,8 +70,9 @@ def amplitude_normalise(X, thresh=1e-10, clip=False, interp_method='pchip',
                                                                                           thresh,
                                                                                           max_iters))
 
-    # Don't normalise in place
-    X = X.copy()
+    # Don't normalise in place - and always work on a floating point copy,
+    # an integer array would truncate every X / env back to integers
+    X = X.astype(float)
 
     orig_dim = X.ndim
     if X.ndim == 2:
